@@ -45,6 +45,17 @@ def run(ctx):
         raise vlib.Inconclusive("Lock model without the hook paths has a stuck state / non-returning call: %s\n%s" % (safe.violated, safe.out[-1500:]))
     vlib.tlc_must_pass(safe, "Lock (hook paths off)")
     ctx.add_model(safe)
+    # the adapter's map lock: the code's order (CleanupChannel drops dtChannelsLk before dtChannel.lk) has no cycle with the hook's
+    # chLk -> mapLk; the refuted variant (map lock held across cleanup) must be caught by the model
+    mp = ctx.tlc("Lock", "lock-map.cfg", timeout=600)
+    if mp.violated:
+        raise vlib.Inconclusive("Lock model: NoMapCycle fails for the code's lock order\n" + mp.out[-1500:])
+    vlib.tlc_must_pass(mp, "Lock (map lock)")
+    ctx.add_model(mp)
+    neg = ctx.tlc("Lock", "lock-map-neg.cfg", timeout=300)
+    if neg.violated != "NoMapCycle":
+        raise vlib.Inconclusive("Lock model: the refuted variant (map lock held across cleanup) is not refuted")
+    ctx.extra["lock_model_map_variant_refuted"] = True
     b = ctx.go_bin("lockx", race=True)
     out1 = ctx.path("lock-replay.ndjson")
     r = ctx.run_go(b, "TestReplay", env={"VERIF_OUT": out1}, timeout=300)
@@ -81,6 +92,21 @@ def run(ctx):
     ctx.extra["adapter_storms_under_race"] = nst
     ctx.extra["adapter_race_reports"] = len(repo_r)
     ctx.evaluations += nst
+    # overlap scenarios of GsTPair.tla on the real adapter: an incoming-request hook parked in its handler (optionally re-entering
+    # the transport as the manager's transport configurers do) || every Transport method on the same channel: every call returns
+    bp = ctx.go_bin("gstx")
+    npair, nover, pverd, pobs = c16.pairs_stage(ctx, bp)
+    ctx.extra["pair_scenarios"] = {"run": npair, "overlapped": nover}
+    ctx.traces += npair
+    ctx.evaluations += 2 * npair
+    for o in pobs.values():
+        ctx.distinct.add(("pair", o["x"]["a"]["op"], o["reenter"], o["stuck"]))
+    for v in pverd:
+        if v["rule"] == "C20.everyCallReturns":
+            o = pobs[v["case"]]
+            ctx.violation({"rule": "C20.everyCallReturns", "scenario": "pair:InReq||" + v["op"], "reenter": v["reenter"]},
+                          "C20.everyCallReturns violated: %s issued while an incoming-request hook is in its handler (re-entry %s) - not returned: %s (case %s)"
+                          % (v["op"], v["reenter"], o["stuck"], v["case"]), detail=c16.pair_detail(v, o))
     both = ctx.path("lock-obs.ndjson")
     with open(both, "w") as f:
         for p in (out1, out2):
